@@ -12,6 +12,8 @@ guarantees (`C08_ordered_history_sorted_buffer`).
 -/
 import Frequenz.Lemmas.ResamplingHelper
 
+set_option linter.unusedSimpArgs false
+
 open ResamplingHelper Extracted.Resampling
 
 /-- The width `max_age · max(period, input period)` of the relevance window, as CPython computes `timedelta * float`. -/
@@ -29,12 +31,28 @@ macro "finish_key" : tactic =>
       | (congr 2 <;> first | rfl | omega | (simp_all <;> omega) | ((repeat' split) <;> omega))
       | ((repeat' split) <;> first | rfl | omega | (simp_all <;> omega)))
 
+/-- Closes the goals about the relevance period after the order of the two periods is fixed, whatever tests the source
+makes (and in whatever order). -/
+macro "finish_period" : tactic =>
+  `(tactic| first
+      | rfl
+      | omega
+      | (simp_all; done)
+      | ((repeat' split) <;> first | rfl | omega | (simp_all; done) | (simp_all <;> omega)))
+
 /-- The older edge the source bisects for is `T − W`. -/
 theorem C08_minRelevant (cfg : Cfg) (h : Helper) (T : Int) : minRelevant cfg h T = T - C08_windowLen cfg h := by
   unfold minRelevant C08_windowLen relevanceLowKey
+  generalize cfg.period = p
+  generalize cfg.maxAge = ma
   cases h.inputPeriod with
   | none => finish_key
-  | some ip => simp only []; finish_key
+  | some ip =>
+    simp only []
+    rcases Int.lt_trichotomy p ip with hlt | heq | hgt
+    · rw [Int.max_eq_right (by omega)]; finish_period
+    · subst heq; rw [Int.max_self]; finish_period
+    · rw [Int.max_eq_left (by omega)]; finish_period
 
 /-- The newer edge the source bisects for is `T` itself. -/
 theorem C08_maxRelevant (cfg : Cfg) (h : Helper) (T : Int) : maxRelevant cfg h T = T := by
